@@ -287,6 +287,12 @@ func c12ReadFraming(w *core.W, j int) {
 		}
 	} else {
 		offs = []int{0, 1, 2, 3, 13, 14, len(fr) / 2, len(fr) - 2, len(fr) - 1}
+		// and wherever what has arrived so far is a well-formed shorter message
+		for i, o := range msgBoundaries(fr[2:]) {
+			if i < 12 && o+2 < len(fr) {
+				offs = append(offs, o+2)
+			}
+		}
 	}
 	for _, o := range offs {
 		if fails >= 2 {
@@ -308,6 +314,20 @@ func c12ReadFraming(w *core.W, j int) {
 			}
 			if err == nil {
 				w.Violation("C12/short-stream-accepted", fmt.Sprintf("stream failed (%v) at offset %d of a %d-octet frame but ReadMsg returned a message (%d records) and no error", ferr, o, len(fr), len(got.Extra)), map[string]any{"size": size, "offset": o})
+			}
+			// the same through the reader zone transfers use
+			cl2, sv2 := netsim.StreamPair()
+			sv2.Write(fr)
+			cl2.FailReadAfter(o, ferr)
+			tr := &dns.Transfer{Conn: &dns.Conn{Conn: cl2}}
+			w.Eval(1)
+			if !within(c12Watch, func() { got, err = tr.ReadMsg() }) {
+				w.Violation("C12/read-hang-on-fault/transfer", fmt.Sprintf("Transfer.ReadMsg hangs when the stream fails at offset %d of %d", o, len(fr)), nil)
+				fails++
+				continue
+			}
+			if err == nil {
+				w.Violation("C12/short-stream-accepted/transfer", fmt.Sprintf("stream failed (%v) at offset %d of a %d-octet frame but Transfer.ReadMsg returned a message and no error", ferr, o, len(fr)), map[string]any{"size": size, "offset": o})
 			}
 		}
 	}
